@@ -64,11 +64,17 @@ instance (m : PMem) (p4 : Word) (va : Nat) : Decidable (OK2 m p4 va) := by
 instance (m : PMem) (p4 : Word) (va : Nat) : Decidable (PathOK m p4 va) := by
   unfold PathOK; exact inferInstance
 
-/-- The weakest hypothesis for `translate` / `translate_page::<Size4KiB>` of a given mapper kind.
-`next_table` of the non-recursive mappers tests `HUGE_PAGE` and then `PRESENT`, so at levels 4..2
-it only goes wrong on a non-present entry with PS set; the recursive mapper tests `is_unused()`
-and never `PRESENT`, so it needs "non-zero ⇒ present" at every level. The level-1 entry is only
-tested with `is_unused()` by both. `PathOK` implies `PathOKFor k` for both kinds. -/
+/-- A weaker, kind-specific hypothesis that already suffices for `translate`, `translate_addr` and
+`translate_page::<Size4KiB>`. `next_table` of the non-recursive mappers tests `HUGE_PAGE` and
+then `PRESENT`, so at levels 4..2 it only goes wrong on a non-present entry with PS set (`NtOK`:
+"PS ⇒ present"); the recursive mapper tests `is_unused()` and never `PRESENT`, so it needs
+"non-zero ⇒ present" at every level. The level-1 entry is only tested with `is_unused()` by both.
+`PathOK` implies `PathOKFor k` for both kinds (`PathOK.toFor`); for the non-recursive kind
+`PathOKFor` is exactly the set of states on which `translate` agrees with the walk
+(`translate_eq_walk_iff_nonrec`), so no weaker hypothesis is possible there. The uniform `PathOK`
+("non-zero ⇒ present" everywhere the walk reads, no PS in the P4 entry) is the weakest condition
+of the requested shape that serves both kinds and all three functions: the `example`s of the last
+section show a failing state for each of its clauses. -/
 def PathOKFor (k : Kind) (m : PMem) (p4 : Word) (va : Nat) : Prop :=
   (NtOK k (ent4 m p4 va) ∧ bitPS (ent4 m p4 va) = false) ∧
   (reach3 m p4 va = true → NtOK k (ent3 m p4 va)) ∧
@@ -241,6 +247,35 @@ example : (translate ⟨true⟩ demoSt 0x1000#64 0x5123).1 = .ok (.mapped 0x7000
     (translate ⟨true⟩ demoSt 0x1000#64 0x5123).2.log =
       [.alloc none, .rd 0x1000#64 0, .rd 0x2000#64 0, .rd 0x3000#64 0, .rd 0x4000#64 5] ∧
     walkDepth demoMem 0x1000#64 0x5123 = 4 := by decide
+
+/-- For the non-recursive mappers `PathOKFor` is not only sufficient but necessary: `translate`
+returns the rendering of the hardware walk exactly on the states satisfying it. (For the recursive
+mapper it is sufficient but not necessary: after following a non-zero non-present entry it may
+still happen to answer `NotMapped`.) -/
+theorem translate_eq_walk_iff_nonrec (s : St) (p4 : Word) (va : Nat) :
+    (translate ⟨false⟩ s p4 va).1 = render s.mem p4 va ↔ PathOKFor ⟨false⟩ s.mem p4 va := by
+  have nt : ∀ e, NtOK ⟨false⟩ e ↔ (bitPS e = true → bitP e = true) := fun e => Iff.rfl
+  rw [translate_eq_E, render_eq]
+  show (translateE ⟨false⟩ (ent4 s.mem p4 va) (ent3 s.mem p4 va) (ent2 s.mem p4 va)
+    (ent1 s.mem p4 va) va).1 = _ ↔ _
+  rw [translateE_nonrec_iff]
+  unfold PathOKFor EntOK
+  simp only [nt]
+  constructor
+  · rintro ⟨a, b, c, d⟩
+    refine ⟨⟨fun hps => (by rw [a] at hps; cases hps), a⟩, fun r3 => b ((reach3_iff ..).1 r3).1,
+      fun r2 => ?_, fun r1 => ?_⟩
+    · obtain ⟨r3, p3, ps3⟩ := (reach2_iff ..).1 r2
+      exact c ((reach3_iff ..).1 r3).1 p3 ps3
+    · obtain ⟨r2, p2, ps2⟩ := (reach1_iff ..).1 r1
+      obtain ⟨r3, p3, ps3⟩ := (reach2_iff ..).1 r2
+      exact d ((reach3_iff ..).1 r3).1 p3 ps3 p2 ps2
+  · rintro ⟨⟨_, a⟩, b, c, d⟩
+    have r3 := fun p4' => (reach3_iff s.mem p4 va).2 ⟨p4', a⟩
+    refine ⟨a, fun p4' => b (r3 p4'), fun p4' p3 ps3 => c ((reach2_iff ..).2 ⟨r3 p4', p3, ps3⟩),
+      fun p4' p3 ps3 p2 ps2 => d ((reach1_iff ..).2 ⟨(reach2_iff ..).2 ⟨r3 p4', p3, ps3⟩, p2, ps2⟩)⟩
+
+example : PathOKFor ⟨false⟩ demoMem 0x1000#64 0x345678 := (PathOK.toFor (by decide) _)
 
 /-- **`translate` agrees with the hardware walk**: not mapped iff the walk fails; otherwise the
 frame start is the walk's physical base, with the walk's page size and offset, and the reported
@@ -446,7 +481,9 @@ be size-aligned (bits 13..20 resp. 13..29 zero), as it is for every entry writte
 `map_to`/`identity_map` (their `PhysFrame<Size2MiB>` / `PhysFrame<Size1GiB>` argument is
 size-aligned by the type's invariant: `from_start_address` checks, `containing_address` aligns)
 and preserved by `update_flags` (`set_addr(huge_frame_addr(entry), …)`); a misaligned field makes
-`translate_page` return `InvalidFrameAddress` (see `expect2M` / `expect1G`). -/
+`translate_page` return `InvalidFrameAddress` (see `expect2M` / `expect1G`), whereas `translate`
+aligns down silently (`PhysFrame::containing_address`), like `Spec.walk`, which takes bits 51:21
+resp. 51:30 and does not model the reserved-bit fault real hardware raises for such an entry. -/
 
 theorem expect4K_ok_iff (m : PMem) (p4 : Word) (va : Nat) (f : Word) :
     expect4K m p4 va = .ok f ↔
